@@ -33,6 +33,7 @@ import (
 	"strings"
 	"sync"
 	"time"
+	"unsafe"
 
 	"lunar/engine/actions"
 	lunar_messages "lunar/engine/messages"
@@ -282,6 +283,7 @@ type sim struct {
 	scanned bool // while held: the watcher had real time for a scan since the clock last moved
 	onGate  func()
 	l1      public_types.SharedQueueI
+	nudged  time.Duration // mode=engine: how far the clock has moved since the last tick
 	engine  bool // the processor is reached through the real streams.Stream built from YAML
 	stream  *streams.Stream
 	handler routing.MessageHandler // the real SPOE message handler of routing over that stream
@@ -351,7 +353,12 @@ func (s *sim) setup(w []string) string {
 		if pre != "" && pre != "0" && pre != "1" {
 			return "bad-op"
 		}
-		return s.setupEngine(size, ttl, max, win, t0, pre == "1")
+		qf, _ := proto.KV(w, "qf")
+		kind, _ := proto.KV(w, "quota")
+		if (qf != "" && qf != "0" && qf != "1") || (kind != "" && kind != "fixed" && kind != "concurrent") {
+			return "bad-op"
+		}
+		return s.setupEngine(size, ttl, max, win, t0, pre == "1", qf == "1", kind == "concurrent")
 	}
 	if mode == "real" && max != 0 {
 		return "bad-op"
@@ -679,10 +686,29 @@ flow:
           at: end
 `
 
-// timersLen reads the number of pending timers of the repo's MockClock (unexported field, read only):
-// the queue's loop is parked exactly when its `clock.After(100ms)` timer is pending again.
-func timersLen(m *clock.MockClock) int {
-	return reflect.ValueOf(m).Elem().FieldByName("timers").Len()
+// timerDue tells whether the repo's MockClock has a pending timer due exactly at instant `at`
+// (unexported fields, read only): the queue's loop is parked exactly when its `clock.After(100ms)`
+// timer - due 100 ms after the tick at which it was registered - is pending.  (Other users of the mock
+// clock, e.g. a concurrent quota, register timers of their own; they are due at other instants.)
+func timerDue(m *clock.MockClock, at time.Time) bool {
+	mu := (*sync.RWMutex)(unsafe.Pointer(reflect.ValueOf(m).Elem().FieldByName("mu").UnsafeAddr()))
+	mu.RLock()
+	defer mu.RUnlock()
+	ts := reflect.ValueOf(m).Elem().FieldByName("timers")
+	for i := 0; i < ts.Len(); i++ {
+		t := ts.Index(i)
+		for t.Kind() == reflect.Interface || t.Kind() == reflect.Ptr {
+			t = t.Elem()
+		}
+		f := t.FieldByName("next")
+		if !f.IsValid() || !f.CanAddr() {
+			continue
+		}
+		if (*(*time.Time)(unsafe.Pointer(f.UnsafeAddr()))).Equal(at) {
+			return true
+		}
+	}
+	return false
 }
 
 // waitersInQueue counts goroutines parked in (*Request).Wait, i.e. Execute calls waiting in a queue.
@@ -723,7 +749,7 @@ const engineTransformProc = `
         value:
           "$.request.headers['x-c06-tag']": "tagged"`
 
-func (s *sim) setupEngine(size, ttl, max, win, t0 int64, pre bool) string {
+func (s *sim) setupEngine(size, ttl, max, win, t0 int64, pre, qf, conc bool) string {
 	os.Setenv("LUNAR_SPOE_PROCESSING_TIMEOUT_SEC", "30")
 	dir, err := os.MkdirTemp("", "c06-engine-")
 	if err != nil {
@@ -735,9 +761,20 @@ func (s *sim) setupEngine(size, ttl, max, win, t0 int64, pre bool) string {
 			return "err:tmp"
 		}
 	}
-	// the quota's own filter does not match the traffic: only the Queue processor draws on it (a
-	// matching filter would add the quota's system flow, which counts every request on arrival)
-	quotas := fmt.Sprintf("quotas:\n  - id: EQ\n    filter:\n      url: quota-only.example.com/*\n    strategy:\n      fixed_window:\n        max: %d\n        interval: %d\n        interval_unit: second\n", max, win)
+	// qf=0: the quota's own filter does not match the traffic, only the Queue processor knows the quota.
+	// qf=1: it matches (the production wiring): the quota's system flows exist - a QuotaProcessorInc at
+	// the start of the request path, whose logic Stream.Initialize switches off for a quota a Queue names,
+	// and for a concurrent quota a QuotaProcessorDec on the response path, which also runs for the early
+	// response of a request the queue rejected
+	qurl := "quota-only.example.com/*"
+	if qf {
+		qurl = "api.example.com/*"
+	}
+	strategy := fmt.Sprintf("      fixed_window:\n        max: %d\n        interval: %d\n        interval_unit: second\n", max, win)
+	if conc {
+		strategy = fmt.Sprintf("      concurrent:\n        max_request_count: %d\n", max)
+	}
+	quotas := fmt.Sprintf("quotas:\n  - id: EQ\n    filter:\n      url: %s\n    strategy:\n%s", qurl, strategy)
 	var groups strings.Builder
 	for p := 0; p <= 20; p++ {
 		fmt.Fprintf(&groups, "          g%d: %d\n", p, p)
@@ -786,10 +823,9 @@ func (s *sim) setupEngine(size, ttl, max, win, t0 int64, pre bool) string {
 	// routing answers HAProxy with (return_early_response = true: the request is NOT forwarded)
 	mm, _ := metrics.NewMetricManager()
 	s.handler = routing.VerifHandlerForStream(st, mm)
-	if !s.until(func() bool { return timersLen(s.mock) >= 1 }, 5*time.Second) {
+	if !s.until(func() bool { return timerDue(s.mock, s.now.Add(100*time.Millisecond)) }, 5*time.Second) {
 		return "stuck:loop-start"
 	}
-	s.timers0 = timersLen(s.mock)
 	s.ready = true
 	return "ok"
 }
@@ -883,7 +919,8 @@ func (s *sim) tickEngine() string {
 	// watcher first, as in the other modes: the clock stops 1 ns short of the loop's timer (whatever is
 	// past its TTL at the tick instant is past it there too: arrivals and expiry instants are tick instants);
 	// then the last nanosecond fires the loop's timer on the repo's MockClock
-	next := s.now.Add(100 * time.Millisecond)
+	next := s.now.Add(100*time.Millisecond - s.nudged)
+	s.nudged = 0
 	s.mock.Set(next.Add(-time.Nanosecond))
 	expired := func() int {
 		n := 0
@@ -899,7 +936,7 @@ func (s *sim) tickEngine() string {
 	}
 	s.now = next
 	s.mock.Set(s.now)
-	if !s.pump(func() bool { return timersLen(s.mock) >= s.timers0 }, 5*time.Second, on) {
+	if !s.pump(func() bool { return timerDue(s.mock, next.Add(100*time.Millisecond)) }, 5*time.Second, on) {
 		bad = append(bad, "stuck")
 	}
 	ids := func(rs []*reqRec) string {
@@ -1676,6 +1713,17 @@ func runCase(ops []string, emit func(string)) {
 				emit(s.arriveEngine(w))
 			case w[0] == "tick" && len(w) == 1:
 				emit(s.tickEngine())
+			case w[0] == "nudge":
+				ms, ok := kvI(w, "ms")
+				if !ok || ms <= 0 || s.nudged+time.Duration(ms)*time.Millisecond >= 100*time.Millisecond {
+					emit("bad-op")
+				} else {
+					// less than a tick: the loop's timer (due 100 ms after the last tick) does not fire
+					s.nudged += time.Duration(ms) * time.Millisecond
+					s.now = s.now.Add(time.Duration(ms) * time.Millisecond)
+					s.mock.Set(s.now)
+					emit("ok")
+				}
 			default:
 				emit("bad-op")
 			}
@@ -2361,11 +2409,21 @@ func genEngine(r *prng.R) []string {
 	if r.Chance(30) {
 		max, win, ttl = 1, 3, 1 // a long window: most requests run out of their TTL and must leave the engine refused
 	}
-	ops := []string{fmt.Sprintf("cfg size=10 ttl=%d max=%d win=%d t0=%d mode=engine pre=%d", ttl, max, win,
-		baseMs+100*r.Intn(10), r.Intn(2))}
+	kind := "fixed"
+	if r.Chance(30) {
+		kind = "concurrent" // slots are only given back by responses, which are never sent: max admissions in all
+	}
+	// offsets off the 100 ms grid put the window boundaries (whole seconds) between two ticks: a nudge can
+	// then carry an arrival across a boundary before the loop's next pass
+	off := prng.Pick(r, []int{0, 100, 500, 50, 950, 30})
+	ops := []string{fmt.Sprintf("cfg size=10 ttl=%d max=%d win=%d t0=%d mode=engine pre=%d qf=%d quota=%s", ttl, max, win,
+		baseMs+off, r.Intn(2), r.Intn(2), kind)}
 	id := 0
-	for n := r.Range(10, 26); n > 0; n-- {
+	for n := r.Range(10, 28); n > 0; n-- {
 		if (id < 2 || r.Chance(25)) && id < 8 {
+			if r.Chance(35) {
+				ops = append(ops, fmt.Sprintf("nudge ms=%d", prng.Pick(r, []int{20, 60, 60, 90})))
+			}
 			ops = append(ops, fmt.Sprintf("arrive id=%d prio=%s", id, strconv.Itoa(prng.Pick(r, []int{1, 3, 5, 5, 8}))))
 			id++
 		} else {
@@ -2479,7 +2537,7 @@ func malformed(r *prng.R) []string {
 }
 
 func gen(r *prng.R, f proto.Flags, emit func(proto.Case)) {
-	nShort, nLong, nOverlap, nHold, nDrain, nWall, nBad, nBound, nFifo, nHoldExp, nRepush, nHeap, nAttempt, nQueue, nPublish, nDuo, nChain, nEngine := 26, 12, 6, 6, 5, 1, 4, 2, 6, 2, 6, 8, 3, 300, 10, 12, 12, 8
+	nShort, nLong, nOverlap, nHold, nDrain, nWall, nBad, nBound, nFifo, nHoldExp, nRepush, nHeap, nAttempt, nQueue, nPublish, nDuo, nChain, nEngine := 26, 12, 6, 6, 5, 1, 4, 2, 6, 2, 6, 8, 3, 300, 10, 12, 12, 14
 	if f.Tier == "thorough" {
 		nShort, nLong, nOverlap, nHold, nDrain, nWall, nBad, nBound, nFifo, nHoldExp, nRepush, nHeap, nAttempt, nQueue, nPublish, nDuo, nChain, nEngine = 600, 200, 120, 120, 80, 6, 10, 20, 100, 25, 120, 40, 15, 3000, 150, 150, 150, 60
 	}
